@@ -258,7 +258,12 @@ func c18Exec(c c18Case) (keys []string, detail string) {
 		if err != nil {
 			keys = append(keys, "C18/builder-error")
 		}
-		return keys, fmt.Sprintf("builder=%d source=%x id=%q %s", c.History[0], c.Pattern, id, detail)
+		// the source was consulted during this very call: the ID must be the rendering of 16 of
+		// the bytes it handed out (a generator that settles for a short read is not)
+		if len(rd.draws) > 0 && strings.Contains(detail, "not traceable to the owned source") {
+			keys = append(keys, "C18/id-not-made-of-16-bytes-of-the-source")
+		}
+		return dedupe(keys), fmt.Sprintf("builder=%d source=%x id=%q %s", c.History[0], c.Pattern, id, detail)
 	case "history":
 		sps := []*saml2.SAMLServiceProvider{world.SP(), world.SP()}
 		rd := &c18Reader{}
